@@ -817,6 +817,105 @@ fn case_fault(r: &mut Rng, id: usize, thorough: bool, out: &mut String) {
     }
 }
 
+// x-c11k begin ----------------------------------------------------------------------------------------------------
+/// fault injection on infeasible_elimination of an AffTree<4> (case kind kfault): the trees of case_kelim (axis / random
+/// decisions with two-row predicates, optionally planted cached states); a fault-free run counts the LP calls, then
+/// every single call position (first 12) x every fault kind, pairs on neighbouring calls, and "every call faulted" with
+/// one kind; thorough adds random subsets
+fn run_elim4p(t: &AffTree<4>, plan: HashMap<usize, Fault>) -> (Result<AffTree<4>, String>, Vec<Event>) {
+    let mut h = t.clone();
+    verif_hook::start(plan);
+    let res = catch(AssertUnwindSafe(|| {
+        h.infeasible_elimination();
+    }));
+    let log = verif_hook::stop();
+    (res.map(|_| h), log)
+}
+fn case_kfault(r: &mut Rng, id: usize, thorough: bool, out: &mut String) {
+    let n = 1 + r.below(2);
+    let m = 1 + r.below(2);
+    let mut t: AffTree<4> = if r.chance(2, 3) {
+        let mut term = |r: &mut Rng| gen_aff(r, m, n, 4);
+        let pp = [0, 0, 0, 20, 40][r.below(5)];
+        let depth = 1 + r.below(3);
+        gen_axis_tree4(r, n, depth, pp, &mut term)
+    } else {
+        let cfg = TreeCfg { depth: 1 + r.below(3), partial_pct: [0, 0, 25][r.below(3)], early_leaf_pct: 20, maxk: 4, term_pool: 0 };
+        gen_tree::<4>(r, n, m, cfg)
+    };
+    if r.chance(1, 3) {
+        let one_in = [3, 6][r.below(2)];
+        plant_states4_any(r, &mut t, one_in);
+    }
+    let (res, base_log) = run_elim4p(&t, HashMap::new());
+    let hf = match res {
+        Ok(h) => h,
+        Err(_) => return,
+    };
+    let ncalls = base_log.iter().filter(|e| matches!(e, Event::Lp { .. })).count();
+    let mut plans: Vec<HashMap<usize, Fault>> = Vec::new();
+    for pos in 0..ncalls.min(12) {
+        for kind in 0..7 {
+            let mut p = HashMap::new();
+            p.insert(pos, fault_of(kind));
+            plans.push(p);
+        }
+    }
+    for pos in 0..ncalls.saturating_sub(1).min(3) {
+        for ka in 0..4 {
+            for kb in 0..4 {
+                if ka != kb {
+                    let mut p = HashMap::new();
+                    p.insert(pos, fault_of(ka));
+                    p.insert(pos + 1, fault_of(kb));
+                    plans.push(p);
+                }
+            }
+        }
+    }
+    // every call faulted with the same kind (a faulted run may make more calls than the fault-free one: nothing is skipped)
+    for kind in 0..4 {
+        let mut p = HashMap::new();
+        for pos in 0..(4 * ncalls + 16) {
+            p.insert(pos, fault_of(kind));
+        }
+        plans.push(p);
+    }
+    if thorough {
+        for _ in 0..10 {
+            let mut p = HashMap::new();
+            for pos in 0..(2 * ncalls) {
+                if r.chance(1, 3) {
+                    p.insert(pos, fault_of(r.below(7)));
+                }
+            }
+            plans.push(p);
+        }
+    }
+    let mut sub = 0;
+    for plan in plans {
+        let all = plan.len() > 2 * ncalls + 8;
+        let pl: Vec<String> = if all {
+            vec![format!("(all {})", sx_fault(&plan.get(&0).cloned()))]
+        } else {
+            let mut v: Vec<_> = plan.iter().map(|(k, f)| (*k, sx_fault(&Some(f.clone())))).collect();
+            v.sort();
+            v.iter().map(|(k, f)| format!("({} {})", k, f)).collect()
+        };
+        let (res, log) = run_elim4p(&t, plan);
+        let d = match res {
+            Ok(h) => sx_tree(&h),
+            Err(_) => "panic".to_string(),
+        };
+        out.push_str(&format!(
+            "(case {}.{} kfault elim {} (plan {}) {} {} {})\n",
+            id, sub, sx_tree(&t), pl.join(" "), sx_tree(&hf), d, sx_log(&log)
+        ));
+        sub += 1;
+    }
+}
+// x-c11k end ------------------------------------------------------------------------------------------------------
+
 /// remove_axes on a tree with a warm cache: the states must be reset (a witness of the old space is not a witness of
 /// the projected tree); afterwards an elimination on the projected tree must again leave only sound caches
 fn case_remove_axes(r: &mut Rng, id: usize, out: &mut String) {
@@ -921,7 +1020,14 @@ fn main() {
                     guard(id, &mut out, |out| case_cprune(&mut cr, id, out))
                 }
             }
-            "c11" => guard(id, &mut out, |out| case_fault(&mut cr, id, args.tier == "thorough", out)),
+            "c11" => {
+                if id % 8 == 7 {
+                    // x-c11k: one case in eight faults the elimination of an AffTree<4> (own case kind)
+                    guard(id, &mut out, |out| case_kfault(&mut cr, id, args.tier == "thorough", out))
+                } else {
+                    guard(id, &mut out, |out| case_fault(&mut cr, id, args.tier == "thorough", out))
+                }
+            }
             _ => {}
         }
         if out.len() > 1 << 20 {
